@@ -83,7 +83,7 @@ impl Prop for C18 {
         "C18"
     }
     fn rule(&self) -> String {
-        "cases = configuration {TLS offered?, server asks for a client certificate?, client has a certificate?, TLS 1.2 / 1.3} x a C03-style conversation (lock-step or pipelined) x a chunk schedule over the whole client stream. The client is a rustls ClientConnection embedded in the scripted transport: it writes the SSLRequest packet and the ClientHello back-to-back (as real clients do), later flights as rustls produces them (the ClientHello optionally enlarged to 4-16 KiB by a long ALPN list, as session tickets and post-quantum key shares do), the HandshakeResponse (sequence id 2) and the commands inside the TLS session. Schedule classes: cut k bytes into the SSLRequest; SSLRequest + first k bytes of the ClientHello in one read; everything in one read; 1-byte reads; exact SSLRequest; mixed. Oracle: run_on = Ok; every server byte after the greeting parses as TLS records and is accepted by rustls; the user name from the *encrypted* response and the client's DER chain (or None) reach after_authentication; the decrypted replies equal, message for message, the same conversation run in plaintext (differential); the client never hangs. TLS requested but not offered => Err and after_authentication never called. Non-trivial = some read() returned bytes from both sides of the SSLRequest / ClientHello boundary (measured from the operation log).".into()
+        "cases = configuration {TLS offered?, server asks for a client certificate?, client has a certificate?, TLS 1.2 / 1.3} x a C03-style conversation (lock-step or pipelined; 1 in 8 with one reply of 600-5000 small rows, i.e. 60-500 KB of TLS records) x a chunk schedule over the whole client stream. The client is a rustls ClientConnection embedded in the scripted transport: it writes the SSLRequest packet and the ClientHello back-to-back (as real clients do), later flights as rustls produces them (the ClientHello optionally enlarged to 4-16 KiB by a long ALPN list, as session tickets and post-quantum key shares do), the HandshakeResponse (sequence id 2) and the commands inside the TLS session. Schedule classes: cut k bytes into the SSLRequest; SSLRequest + first k bytes of the ClientHello in one read; everything in one read; 1-byte reads; exact SSLRequest; mixed. Oracle: run_on = Ok; every server byte after the greeting parses as TLS records and is accepted by rustls; the user name from the *encrypted* response and the client's DER chain (or None) reach after_authentication; the decrypted replies equal, message for message, the same conversation run in plaintext (differential); the client never hangs. TLS requested but not offered => Err and after_authentication never called. Non-trivial = some read() returned bytes from both sides of the SSLRequest / ClientHello boundary (measured from the operation log).".into()
     }
     fn assumptions(&self) -> Vec<String> {
         vec![
@@ -111,6 +111,21 @@ impl Prop for C18 {
             user_pad: 0,
             tail_pad: 0,
         };
+        // sometimes one reply of many small packets totalling 60-500 KB (several TLS records, more
+        // than rustls buffers internally)
+        if g.chance(1, 8) {
+            let idx: Vec<usize> = conv.actions.iter().enumerate().filter(|(_, a)| matches!(a, Action::Result(_))).map(|(i, _)| i).collect();
+            if !idx.is_empty() {
+                let ai = *g.pick(&idx);
+                let nrows = g.usize_in(600, 5000);
+                let width = g.usize_in(1, 120);
+                let cols = vec![crate::vals::ColSpec::simple("a", T_VAR_STRING, 0), crate::vals::ColSpec::simple("b", T_LONG, 0)];
+                let rows: Vec<RowProg> = (0..nrows)
+                    .map(|r| RowProg { cells: vec![crate::vals::Val::plain(crate::vals::Base::Slice(vec![b'a' + (r % 26) as u8; width])), crate::vals::Val::plain(crate::vals::Base::I32(r as i32))], form: RowForm::WriteRow })
+                    .collect();
+                conv.actions[ai] = Action::Result(Program { steps: vec![Step::Set { cols, rows, end: SetEnd::Finish }] });
+            }
+        }
         conv.lockstep = g.chance(1, 3);
         let (s, _) = gen_tls_schedule(g);
         conv.sched = s;
@@ -170,6 +185,9 @@ impl Prop for C18 {
             ex.class("client-certificate-presented");
         }
         ex.class(if c.lockstep { "lock-step" } else { "pipelined" });
+        if log.decrypted.len() > 65_536 {
+            ex.class("response-stream>64KiB-over-TLS");
+        }
 
         if let RunResult::Panic(p) = &o.result {
             ex.fail(format!("c18-panic|{}", panic_signature(p)), format!("run_on panicked: {}", o.result.brief()));
